@@ -73,18 +73,27 @@ Counted(r) ==
 
 \* ---- locator: n = length in bytes; guid is 16 (scaled 4) ----
 Locator(r) ==
-  IF r.L <= Hdr + 1 THEN Out("err", {}, 0, 0)
+  IF r.L <= Hdr + 2 THEN Out("err", {}, 0, 0)                               \* guid + terminator
   ELSE IF (r.L - Hdr) % 2 # 0 THEN Out("err", {}, 0, 0)
   ELSE IF ~r.term THEN Out("err", {Acc(r.L - 2, r.L)}, 0, 0)
   ELSE Out("ok", {Acc(0, Hdr), Acc(Hdr, r.L)}, r.L, 1)
 
-\* ---- endofields: which optional fields are present; the timestamp is read before the signature check ----
+\* ---- endofields: which parts of an endorsement are present / well-formed.  Three relying-party
+\*      entry points read them: verify.Endorsement (the timestamp is read before the signature
+\*      check), SevPolicy and TdxPolicy. ----
+EndoVerify(r) ==
+  IF ~r.parses \/ ~r.golden THEN "err"
+  ELSE IF ~r.timestamp /\ Design = "legacy" THEN "panic"                     \* nil timestamp dereferenced
+  ELSE IF r.timestamp /\ r.late /\ ~r.prov THEN "err"                        \* provenance required after the cut-over date
+  ELSE IF ~r.cert THEN "err"
+  ELSE IF ~r.sig THEN "err"
+  ELSE "ok"
+EndoSev(r) == IF ~r.parses \/ ~r.golden \/ ~r.sevsnp THEN "err" ELSE "ok"
+EndoTdx(r) == IF ~r.parses \/ ~r.golden \/ ~r.tdx \/ ~r.tdxmeas THEN "err" ELSE "ok"
 EndoFields(r) ==
-  IF ~r.parses THEN Out("err", {}, 0, 0)
-  ELSE IF ~r.timestamp /\ Design = "legacy" THEN Out("panic", {}, 0, 0)      \* nil timestamp dereferenced
-  ELSE IF ~r.cert THEN Out("err", {}, 0, 0)
-  ELSE IF ~r.sig THEN Out("err", {}, 0, 0)
-  ELSE Out("ok", {}, 0, 0)
+  LET v == EndoVerify(r) s == EndoSev(r) t == EndoTdx(r)
+      worst == IF "panic" \in {v, s, t} THEN "panic" ELSE v
+  IN [res |-> worst, accs |-> {}, alloc |-> 0, iters |-> 0, verify |-> v, sev |-> s, tdx |-> t]
 
 Rows ==
   CASE Which = "sevmeta" -> [p : {"sevmeta"}, L : 0 .. M - 1, O : 0 .. M - 1, S : 0 .. M - 1, Ln : 0 .. M - 1]
@@ -93,7 +102,10 @@ Rows ==
     [] Which = "sized" -> [p : {"sized"}, D : 0 .. M - 1, R : 0 .. M - 1]
     [] Which = "counted" -> [p : {"counted"}, D : 0 .. M - 1, R : 0 .. M - 1]
     [] Which = "locator" -> [p : {"locator"}, L : 0 .. M - 1, term : BOOLEAN]
-    [] Which = "endofields" -> [p : {"endofields"}, parses : BOOLEAN, timestamp : BOOLEAN, cert : BOOLEAN, sig : BOOLEAN]
+    [] Which = "endofields" -> {r \in [p : {"endofields"}, parses : BOOLEAN, golden : BOOLEAN, timestamp : BOOLEAN, late : BOOLEAN, prov : BOOLEAN,
+                                         cert : BOOLEAN, sig : BOOLEAN, sevsnp : BOOLEAN, tdx : BOOLEAN, tdxmeas : BOOLEAN] :
+                                 /\ (~r.parses => ~r.golden) /\ (~r.golden => ~r.timestamp /\ ~r.prov /\ ~r.cert /\ ~r.sevsnp /\ ~r.tdx)
+                                 /\ (~r.parses => ~r.sig) /\ (~r.timestamp => ~r.late) /\ (~r.tdx => ~r.tdxmeas)}
 
 Parse(r) ==
   CASE r.p = "sevmeta" -> SevMeta(r) [] r.p = "tdxmeta" -> TdxMeta(r) [] r.p = "tdxregion" -> TdxRegion(r)
@@ -109,5 +121,7 @@ MemSafe == out.res = "pending" \/ \A a \in out.accs : 0 <= a.lo /\ a.lo <= a.hi 
 AllocBounded == out.res = "pending" \/ out.alloc <= Size(row) + 1
 Terminates == out.res = "pending" \/ out.iters <= Size(row) + 1
 
-Emit == out.res # "pending" => PrintT(<<"VCASE", ToJson([row |-> row, res |-> out.res])>>)
+Emit == out.res # "pending" =>
+  PrintT(<<"VCASE", ToJson(IF Which = "endofields" THEN [row |-> row, res |-> out.res, verify |-> out.verify, sev |-> out.sev, tdx |-> out.tdx]
+                           ELSE [row |-> row, res |-> out.res])>>)
 =============================================================================
